@@ -185,13 +185,18 @@ PROPS = {
     },
     "C13": {
         "gens": ["conversions"],
-        "lean_targets": ["Cql.Props.C13"],
+        "lean_targets": ["Cql.Props.C13", "Cql.Props.C13Time"],
         "trusted_base": COMMON_TRUST + [TRANSLATOR + " (every integer helper of datacodec/conversions.go and the type-switch tables of the "
             "bigint/counter, int, smallint, tinyint and varint codecs)", HARNESS,
-            "Cql/GoNum.lean: Go's conversion T(x) modelled as two's-complement wrap-around; int/uint are 64 bits wide"],
+            "Cql/GoNum.lean: Go's conversion T(x) modelled as two's-complement wrap-around; int/uint are 64 bits wide",
+            "Cql/TimeConv.lean: hand-written model of datacodec/math.go (addExact, multiplyExact, floorDiv, floorMod) and of the time "
+            "conversions of timestamp.go, date.go, time.go on (Unix seconds, nanoseconds), with explicit wrap-around; the sign tests written "
+            "with bit operations in the source are modelled as the sign comparisons they compute; tied to the exported Go functions by the "
+            "correspondence run (`conv time …`) on boundary and random values"],
         "assumptions": [
             "string parsing/formatting (strconv, big.Int.SetString), time layouts and floating point (float64→float32, big.Float) are "
             "parameters of the model: they are judged by the harness against arbitrary-precision arithmetic / bit patterns, not proved",
+            "a time.Time is taken as the pair (t.Unix(), t.Nanosecond()) it holds; the calendar arithmetic of package time is not modelled",
             "the translator reports the helper bodies and switch tables faithfully (each table entry is exercised on the real codecs and "
             "compared with the regenerated helper on boundary and random values)",
             "32-bit platforms (strconv.IntSize = 32) are not covered",
@@ -447,10 +452,14 @@ MANIFEST_TEXT = {
                 "function on ALL mathematical integers of its source kind, either returns the same value (representable in the target) or "
                 "an error, and errs only when the value does not fit (exact-or-error, no spurious refusal); and every entry of every "
                 "convertTo*/convertFrom* type switch of the integer codecs — every (CQL integer type, Go integer type) pair, by value and "
-                "by pointer, both directions — is a value-preserving cast or one of those helpers with exactly the right kinds.",
+                "by pointer, both directions — is a value-preserving cast or one of those helpers with exactly the right kinds. "
+                "Temporal types (hand-written model of math.go and the time conversions, tied by correspondence): for every int64 count of "
+                "seconds and every nanosecond part, time.Time→timestamp yields ⌊(s·10⁹+ns)/10⁶⌋ or an error exactly when that leaves 64 bits; "
+                "timestamp→time.Time is its exact inverse on all of int64; time.Time→date yields ⌊s/86400⌋ or an error exactly when that "
+                "leaves 32 bits; date→time.Time never overflows; a time.Duration is accepted exactly within [0, 24 h).",
         "design_ref": "DESIGN.md §5 C13",
-        "note": "Trusted: Lean kernel; the translator; wrap-around semantics of Go conversions. Floats, strings and time conversions are "
-                "differential only (partial).",
+        "note": "Trusted: Lean kernel; the translator; wrap-around semantics of Go conversions; the hand-written time-conversion model. "
+                "Floats, strings and layouts are differential only (partial).",
         "technique": "Lean 4 theorems (omega over wrap-around arithmetic) about functions and tables regenerated from the Go source",
     },
     "C19": {
